@@ -128,11 +128,20 @@ class Interp:
         s.depth = 0
         s.loopwatch = {}
         s.on_call = None
+        # OpenMP (outlined -fopenmp IR): one abstract thread owns every chunk; per-iteration footprints are recorded
+        s.par = None            # id of the active parallel region instance, or None
+        s.par_seq = 0
+        s.cur_iter = None
+        s.par_log = []          # (kind 'r'|'w', Region, off, size, iteration id)
+        s.par_regions = []      # finished regions: dict(site, fn, iterations, log)
 
     # ---------------------------------------------------------------- regions / memory
     def new_region(s, name, kind, **kw):
         s.nreg += 1
-        return Region('%s#%d' % (name, s.nreg) if kind in ('alloca', 'heap') else name, kind, **kw)
+        r = Region('%s#%d' % (name, s.nreg) if kind in ('alloca', 'heap') else name, kind, **kw)
+        if s.par is not None:
+            r.owner = ('par', s.par)     # created inside a parallel region: private to the executing thread
+        return r
 
     def here(s):
         if s.stack:
@@ -237,6 +246,8 @@ class Interp:
         c = s.mem.get(k)
         if s.log_access and ptr.reg.kind in ('param', 'heap'):
             s.reads.append((ptr.reg, k[1], size))
+        if s.par is not None and ptr.reg.kind != 'global' and ptr.reg.owner != ('par', s.par):
+            s.par_log.append(('r', ptr.reg, k[1], size, s.cur_iter))
         if c is not None:
             v, sz = c
             if sz == size:
@@ -275,6 +286,8 @@ class Interp:
         k = (ptr.reg, offkey(ptr.off))
         if s.log_access and ptr.reg.kind in ('param', 'heap'):
             s.writes.append((ptr.reg, k[1], size))
+        if s.par is not None and ptr.reg.owner != ('par', s.par):
+            s.par_log.append(('w', ptr.reg, k[1], size, s.cur_iter))
         if ptr.reg.kind == 'param':
             if not hasattr(s, '_written'):
                 s._written = {}
@@ -456,7 +469,7 @@ class Interp:
         raise Incomplete('zero of %r' % (ty,))
 
     def gaddr(s, name):
-        if name in s.mod.funcs or name in s.mod.decls:
+        if name[1:] in s.mod.funcs or name[1:] in s.mod.decls or name[1:].strip('"') in s.mod.funcs:
             return FnPtr(name)
         if s.mod.has_glob(name):
             return Ptr(s.global_region(name), 0)
@@ -741,6 +754,9 @@ class Interp:
         while True:
             nxt = None
             blk = blocks[lab]
+            if s.par is not None and lab.startswith('omp.inner.for.body') and name.startswith('.omp_outlined.'):
+                s.iter_no += 1
+                s.cur_iter = s.iter_no
             if blk and blk[0].op == 'phi':
                 # phi nodes of a block are evaluated simultaneously on entry
                 vals = []
@@ -783,7 +799,8 @@ class Interp:
                             raise Incomplete('VLA with symbolic extent %s' % cnt)
                         sz *= cnt
                     r = s.new_region(ins.dst[1:], 'alloca', extent=sz)
-                    r.owner = name
+                    if r.owner is None:
+                        r.owner = name
                     env[ins.dst] = Ptr(r, 0)
                 elif op == 'br':
                     if not ins.a:
@@ -966,6 +983,11 @@ class Interp:
             a, b = args
             if isinstance(a, int) and isinstance(b, int):
                 return min(a, b) if 'umin' in name else max(a, b)
+        if name.startswith('llvm.floor.') or name.startswith('llvm.ceil.') or name.startswith('llvm.trunc.'):
+            import math
+            x = args[0]
+            if isinstance(x, tuple) and x[0] == 'f':
+                return ('f', float({'floor': math.floor, 'ceil': math.ceil, 'trunc': math.trunc}[name.split('.')[1]](x[1])))
         raise Incomplete('intrinsic %s not supported in this mode' % name)
 
 
@@ -976,7 +998,8 @@ def _malloc(kind):
         if not isinstance(n, int):
             raise Incomplete('allocation with symbolic size %s' % n)
         r = s.new_region(kind, 'heap', extent=n, alloc=kind)
-        r.owner = s.stack[-1][0] if s.stack else None
+        if r.owner is None:
+            r.owner = s.stack[-1][0] if s.stack else None
         r.align = 16
         s.heap.append(r)
         return Ptr(r, 0)
@@ -1037,6 +1060,64 @@ BUILTINS = {
     'omp_get_thread_num': lambda s, a, i: 0,
     'omp_get_num_threads': lambda s, a, i: 1,
 }
+
+
+def _kmpc_fork_call(s, args, ins):
+    fnp = args[2]
+    if not isinstance(fnp, FnPtr):
+        raise Incomplete('__kmpc_fork_call with a non-constant microtask')
+    if s.par is not None:
+        raise Incomplete('nested parallel region')
+    s.par_seq += 1
+    s.par = s.par_seq
+    s.iter_no = 0
+    s.cur_iter = None
+    s.par_log = []
+    site = s.mod.loc(ins.dbg) if ins is not None else (None, None)
+    caller = s.stack[-1][0] if s.stack else None
+    g = s.new_region('gtid', 'alloca', extent=4)
+    b = s.new_region('btid', 'alloca', extent=4)
+    s.mem[(g, 0)] = (0, 4)
+    s.mem[(b, 0)] = (0, 4)
+    try:
+        s.call(fnp.name[1:], [Ptr(g, 0), Ptr(b, 0)] + list(args[3:]))
+    finally:
+        reg = dict(site=site, caller=caller, fn=fnp.name, iterations=s.iter_no, log=s.par_log)
+        s.par_regions.append(reg)
+        s.par = None
+        s.cur_iter = None
+        s.par_log = []
+    return None
+
+
+def _kmpc_static_init(s, args, ins):
+    loc, gtid, sched, plast, plower, pupper, pstride, incr, chunk = args
+    if not isinstance(sched, int):
+        raise Incomplete('symbolic OpenMP schedule')
+    sz = 8 if ins is None or 'init_8' in ins.text else 4
+    if sched == 34:        # static, unchunked: the single abstract thread owns the whole iteration space
+        pass
+    elif sched == 33:      # static, chunked: chunks are visited one after the other (stride = chunk * 1 thread)
+        lo = s.load_cell(plower, sz)
+        if not (isinstance(lo, int) and isinstance(chunk, int)):
+            raise Incomplete('symbolic chunk bounds')
+        s.store_cell(pupper, (lo + chunk - 1) & ((1 << (8 * sz)) - 1), sz)
+        s.store_cell(pstride, chunk, sz)
+    else:
+        raise Incomplete('OpenMP schedule kind %d is not modelled' % sched)
+    s.store_cell(plast, 1, 4)
+    return None
+
+
+BUILTINS.update({
+    '__kmpc_fork_call': _kmpc_fork_call,
+    '__kmpc_for_static_init_8u': _kmpc_static_init, '__kmpc_for_static_init_8': _kmpc_static_init,
+    '__kmpc_for_static_init_4u': _kmpc_static_init, '__kmpc_for_static_init_4': _kmpc_static_init,
+    '__kmpc_for_static_fini': lambda s, a, i: None,
+    '__kmpc_global_thread_num': lambda s, a, i: 0,
+    '__kmpc_push_num_threads': lambda s, a, i: s.events.append(('push_num_threads', a[2])),
+    '__kmpc_barrier': lambda s, a, i: None,
+})
 
 
 def run_global_ctors(interp, only=None):
